@@ -10,6 +10,7 @@ import (
 	"strings"
 	"testing"
 	"unicode"
+	"unicode/utf8"
 
 	"github.com/verily-src/fhirpath-go/fhirpath/system"
 )
@@ -485,4 +486,19 @@ func TestC13(t *testing.T) {
 		Stage[c13Case]{Name: "strings", Gen: c13Gen, Run: c13Run, N: pick(15000, 150000)},
 		Stage[c13UnitCase]{Name: "unit-argument", Gen: c13GenUnit, Run: c13RunUnit, N: pick(5000, 100000)},
 	)
+}
+
+// --- native go-fuzz target (thorough tier): the coverage-guided mutator chooses the operands,
+// the stage's own Run function (reference model inside the target) judges them ---------------
+
+func FuzzC13(f *testing.F) {
+	for i, s := range c13Strings {
+		f.Add(s, uint8(i))
+	}
+	f.Fuzz(func(t *testing.T, s string, sel uint8) {
+		if len(s) > 40 || !utf8.ValidString(s) {
+			return
+		}
+		fuzzCase(t, "C13", "strings", c13Case{X: sv(s), T: c13Targets[int(sel)%len(c13Targets)]}, c13Run)
+	})
 }
